@@ -191,7 +191,7 @@ Qed.
 
 Lemma o_ctes_at P rc : forall pre cs te seen n q post,
   allok P (o_ctes P te rc seen cs) -> ctes_list cs = pre ++ (n, q) :: post ->
-  allok P (o_query P (if rc then (n, out_query (env_pre te pre) q, SelfVis) :: env_pre te pre else env_pre te pre) [] q).
+  allok P (o_query P (if recv P rc then (n, out_query (env_pre te pre) q, SelfVis) :: env_pre te pre else env_pre te pre) [] q).
 Proof.
   induction pre as [|[k q0] pre IH]; intros cs te seen n q post H E; destruct cs as [|n1 q1 cs1]; cbn in E; try discriminate.
   - injection E as -> -> _. cbn [o_ctes] in H. apply allok_cons in H as [_ H]. apply allok_app in H as [H _]. exact H.
@@ -203,14 +203,14 @@ Theorem cte_order P te rc cs body ord lim :
   well_scoped P te (Query rc cs body ord lim) = OK ->
   forall pre n q post, ctes_list cs = pre ++ (n, q) :: post ->
   forall m, In m (dt_query q) ->
-    m = 0 \/ In m (map te_name te) \/ In m (map fst pre) \/ (rc = true /\ m = n).
+    m = 0 \/ In m (map te_name te) \/ In m (map fst pre) \/ (recv P rc = true /\ m = n).
 Proof.
   intros H pre n q post E m Hm. apply ws_ok_iff in H. unfold obligations in H. cbn [o_query] in H.
   apply allok_app in H as [H _].
   pose proof (o_ctes_at P rc pre cs te [] n q post H E) as Hq.
   destruct (direct_tables_resolve P) as (_ & _ & Dq & _).
   specialize (Dq q _ _ Hq m Hm). apply tab_ok_in in Dq as [Z|Dq]; [auto|].
-  destruct rc; cbn in Dq.
+  destruct (recv P rc); cbn in Dq.
   - destruct Dq as [Dq|Dq]; [right; right; right; auto|].
     apply env_pre_names in Dq as [Dq|Dq]; auto.
   - apply env_pre_names in Dq as [Dq|Dq]; auto.
@@ -326,7 +326,7 @@ Section Mono.
       split.
       + cbn [env_ctes]. rewrite Eq. rewrite app_comm_cons. apply (proj1 (IHr Fr _ x Hx)).
       + intros rc seen. cbo. rewrite !okv_cons, !okv_app. rewrite Eq. f_equal. f_equal.
-        * destruct rc.
+        * destruct (recv P rc).
           -- rewrite app_comm_cons. apply (proj2 (IHq Fq _ x Hx)).
           -- apply (proj2 (IHq Fq _ x Hx)).
         * rewrite app_comm_cons. apply (proj2 (IHr Fr _ x Hx)).
